@@ -102,6 +102,12 @@ def all_units():
         units_c20x.register(add)
         import units_c14x
         units_c14x.register(add)
+        import units_c15x
+        units_c15x.register(add)
+        import units_c07s
+        units_c07s.register(add)
+        import units_c12x
+        units_c12x.register(add)
         # development aid: additional unit modules (comma separated) can be tried out before they are registered here
         import os, importlib
         for m in filter(None, os.environ.get('VERIF_EXTRA_UNITS', '').split(',')):
